@@ -200,10 +200,10 @@ theorem meta_consistent (a0 : Int) (re : Bool) (hdr : Header) (s : List Chunk) (
       exact (Except.ok.inj hre).symm
     · simp [metaOf, infosFrom_length]
     · intro k c hk
-      refine ⟨infoFor hdr.pfx k c, ?_, ?_⟩
+      refine ⟨infoFor hdr false k c, ?_, ?_⟩
       · simp [metaOf, infosFrom_getElem?, hk]
-      · obtain ⟨h1, h2, h3, h4, h5, h6, h7, h8, h9⟩ := infoFor_fields hdr.pfx k c
-        refine ⟨h1, h2, infoFor_start _ _ _, infoFor_stop _ _ _, h3, h4, h5, h6, h7, h8, ?_, ?_⟩
+      · obtain ⟨h1, h2, h3, h4, h5, h6, h7, h8, h9⟩ := infoFor_fields hdr false k c
+        refine ⟨h1, h2, infoFor_start _ _ _ _, infoFor_stop _ _ _ _, h3, h4, h5, h6, h7, h8, ?_, ?_⟩
         · intro he; simp [h9, he]
         · intro hne
           refine ⟨chunkFilename hdr.pfx k, by simp [h9, hne], ?_⟩
@@ -211,15 +211,197 @@ theorem meta_consistent (a0 : Int) (re : Bool) (hdr : Header) (s : List Chunk) (
           simpa using this
     · intro p hp
       obtain ⟨k, c, hk, hne, hpe⟩ := mem_filesFrom hdr.pfx out 0 p hp
-      refine ⟨infoFor hdr.pfx k c, ?_, ?_⟩
-      · have : (metaOf hdr out).chunks[k]? = some (infoFor hdr.pfx k c) := by
+      refine ⟨infoFor hdr false k c, ?_, ?_⟩
+      · have : (metaOf hdr out).chunks[k]? = some (infoFor hdr false k c) := by
           simp [metaOf, infosFrom_getElem?, hk]
         exact List.mem_of_getElem? this
-      · obtain ⟨_, h2, _, _, _, _, _, _, h9⟩ := infoFor_fields hdr.pfx k c
+      · obtain ⟨_, h2, _, _, _, _, _, _, h9⟩ := infoFor_fields hdr false k c
         subst hpe
         refine ⟨by simp [h9, hne], by simpa using h2, ?_⟩
         rw [h2]
         simpa using hne
+
+/-! ### byte sizes -/
+
+/-- `meta_sizes_consistent` (serial saver, rechunking on or off, all inputs): in every chunk_info
+`nbytes = n · itemsize`; an entry without rows has neither file name nor `filesize`; an entry with
+rows names a file that exists, holds exactly `n` rows, and whose size on disk (`blobSize`, the
+codec's output length, > 0) is the recorded `filesize`. -/
+theorem meta_sizes_consistent (a0 : Int) (re : Bool) (hdr : Header) (s : List Chunk) (md : Meta) (files : Files)
+    (h : saveAll a0 re hdr s = .ok (md, files)) :
+    ∀ info ∈ md.chunks,
+      info.nbytes = info.n * hdr.itemsize ∧
+      (info.n = 0 → info.filename = none ∧ info.filesize = none) ∧
+      (info.n ≠ 0 → ∃ fn rows, info.filename = some fn ∧ readFile files fn = some rows ∧
+          rows.length = info.n ∧ info.filesize = some (blobSize rows).val ∧ 0 < (blobSize rows).val) := by
+  rw [saveAll_eq] at h
+  cases hre : rechunkAll a0 ⟨re, hdr.runId.startsWith "_", none⟩ s with
+  | error e => simp [hre, Except.map] at h
+  | ok out =>
+    simp only [hre, Except.map, Except.ok.injEq, Prod.mk.injEq] at h
+    obtain ⟨hmd, hfiles⟩ := h
+    subst hmd hfiles
+    intro info hi
+    obtain ⟨k, c, hk, rfl⟩ := mem_infosFrom (by simpa [metaOf] using hi)
+    obtain ⟨_, hn, _, _, _, _, _, _, hfn⟩ := infoFor_fields hdr false k c
+    obtain ⟨hnb, hfs⟩ := infoFor_sizes hdr false k c
+    refine ⟨by rw [hnb, hn], ?_, ?_⟩
+    · intro h0
+      have he : c.rows = [] := by rw [hn] at h0; exact List.length_eq_zero_iff.1 h0
+      simp [hfn, hfs, he]
+    · intro h0
+      have he : c.rows ≠ [] := by rw [hn] at h0; intro hc; exact h0 (by simp [hc])
+      refine ⟨chunkFilename hdr.pfx k, c.rows, by simp [hfn, he], ?_, hn.symm, by simp [hfs, he], (blobSize c.rows).property⟩
+      simpa using readFile_filesFrom hdr.pfx out 0 k c hk he
+
+/-- … and with an executor: same `nbytes`, no `filesize` anywhere (the chunk_info is written before
+the pool has produced the file), every entry with rows still names an existing file with `n` rows
+once all writes have completed, in whatever order. -/
+theorem meta_sizes_consistent_executor (a0 : Int) (re : Bool) (hdr : Header) (s : List Chunk) (order : List Nat)
+    (md : Meta) (files : Files) (h : saveAllExec a0 re hdr s order = .ok (md, files))
+    (ho : ∀ out, rechunkAll a0 ⟨re, hdr.runId.startsWith "_", none⟩ s = .ok out →
+      order.Perm (List.range (out.filter (fun c => !c.rows.isEmpty)).length)) :
+    ∀ info ∈ md.chunks,
+      info.nbytes = info.n * hdr.itemsize ∧ info.filesize = none ∧
+      (info.n = 0 → info.filename = none) ∧
+      (info.n ≠ 0 → ∃ fn rows, info.filename = some fn ∧ readFile files fn = some rows ∧ rows.length = info.n) := by
+  rw [saveAllExec_eq] at h
+  cases hre : rechunkAll a0 ⟨re, hdr.runId.startsWith "_", none⟩ s with
+  | error e => simp [hre, Except.map] at h
+  | ok out =>
+    simp only [hre, Except.map, Except.ok.injEq, Prod.mk.injEq] at h
+    obtain ⟨hmd, hfiles⟩ := h
+    subst hmd hfiles
+    have hperm := completed_perm order (filesFrom hdr.pfx 0 out)
+      (by rw [filesFrom_length]; exact ho out hre) (names_filesFrom_nodup hdr.pfx out 0)
+    have hnd : (names (completed order (filesFrom hdr.pfx 0 out))).Nodup :=
+      (hperm.map (fun (p : String × List Row) => p.1)).symm.nodup (names_filesFrom_nodup hdr.pfx out 0)
+    intro info hi
+    obtain ⟨k, c, hk, rfl⟩ := mem_infosFrom (by simpa [metaOfExec] using hi)
+    obtain ⟨_, hn, _, _, _, _, _, _, hfn⟩ := infoFor_fields hdr true k c
+    obtain ⟨hnb, hfs⟩ := infoFor_sizes hdr true k c
+    refine ⟨by rw [hnb, hn], by simp [hfs], ?_, ?_⟩
+    · intro h0
+      have he : c.rows = [] := by rw [hn] at h0; exact List.length_eq_zero_iff.1 h0
+      simp [hfn, he]
+    · intro h0
+      have he : c.rows ≠ [] := by rw [hn] at h0; intro hc; exact h0 (by simp [hc])
+      refine ⟨chunkFilename hdr.pfx k, c.rows, by simp [hfn, he], ?_, hn.symm⟩
+      rw [readFile_perm hperm hnd]
+      simpa using readFile_filesFrom hdr.pfx out 0 k c hk he
+
+/-! ### executor: completion order, futures -/
+
+/-- For EVERY input and every completion order the executor saver does what the serial saver does,
+except that no `filesize` is recorded and the files appear in completion order. -/
+theorem exec_save_eq_serial (a0 : Int) (re : Bool) (hdr : Header) (s : List Chunk) (order : List Nat) :
+    saveAllExec a0 re hdr s order =
+      (saveAll a0 re hdr s).map (fun p => (p.1.withoutFilesize, completed order p.2)) := by
+  rw [saveAllExec_eq, saveAll_eq]
+  cases rechunkAll a0 ⟨re, hdr.runId.startsWith "_", none⟩ s with
+  | error e => rfl
+  | ok out => simp [Except.map, metaOfExec_eq]
+
+/-- `roundtrip_any_completion_order`: valid chunks saved through a thread pool, the chunk files
+completing in ANY order (`order` a permutation of the pending writes) before `close`: the metadata
+does not depend on the order, the directory is the serial saver's directory up to the order of its
+entries (it reads the same under every name), and loading — serially or with futures resolved in
+chunk order — gives back every chunk. -/
+theorem roundtrip_any_completion_order (a0 : Int) (hdr : Header) (rid : String) (s : List Chunk) (order : List Nat)
+    (hne : s ≠ []) (hs : s.all (storableB rid) = true)
+    (ho : order.Perm (List.range (s.filter (fun c => !c.rows.isEmpty)).length)) :
+    ∃ md files md0 files0,
+      saveAllExec a0 false hdr s order = .ok (md, files) ∧ saveAll a0 false hdr s = .ok (md0, files0) ∧
+      md = md0.withoutFilesize ∧ files.Perm files0 ∧ (∀ fn, readFile files fn = readFile files0 fn) ∧
+      loadAll md files = .ok (s.map (restore hdr rid)) ∧
+      loadAllExec md files = .ok (s.map (restore hdr rid)) := by
+  have hperm := completed_perm order (filesFrom hdr.pfx 0 s)
+    (by rw [filesFrom_length]; exact ho) (names_filesFrom_nodup hdr.pfx s 0)
+  have hnd : (names (completed order (filesFrom hdr.pfx 0 s))).Nodup :=
+    (hperm.map (fun (p : String × List Row) => p.1)).symm.nodup (names_filesFrom_nodup hdr.pfx s 0)
+  have hload : loadAll (metaOfExec hdr s) (completed order (filesFrom hdr.pfx 0 s)) = .ok (s.map (restore hdr rid)) :=
+    loadAll_of_readable hdr rid true s _ hne (fun c hc => List.all_eq_true.1 hs c hc) (by
+      intro k c hk hr
+      rw [readFile_perm hperm hnd]
+      simpa using readFile_filesFrom hdr.pfx s 0 k c hk hr)
+  refine ⟨metaOfExec hdr s, completed order (filesFrom hdr.pfx 0 s), metaOf hdr s, filesFrom hdr.pfx 0 s,
+    ?_, ?_, metaOfExec_eq hdr s, hperm, fun fn => readFile_perm hperm hnd fn, hload, ?_⟩
+  · rw [saveAllExec_eq, rechunkAll_off]; rfl
+  · rw [saveAll_eq, rechunkAll_off]; rfl
+  · rw [loadAllExec_eq]; exact hload
+
+/-- thread-pool loading: one future per chunk info, resolved in chunk order, is the serial loader -/
+theorem load_futures_in_order (md : Meta) (files : Files) : loadAllExec md files = loadAll md files :=
+  loadAllExec_eq md files
+
+/-! ### super-run streams -/
+
+/-- sub-run spans of positive length in time order (what `superrun_transformation`, `split` and
+`concatenate` produce; ids in ANY order) survive the metadata json (`sort_keys=True`) and the
+constructor's stable sort by start -/
+theorem subruns_survive_json (sub : Runs) (h : spansOkB sub = true) :
+    sortRuns (jsonRuns sub) = sub ∧ runsOverlap sub = false := by
+  have := restorable_of_spansOk sub h
+  simpa [restorableRuns] using this
+
+/-- `roundtrip_plain` for annotated chunks: any non-empty list of valid chunks of (super-)run `rid`
+each carrying such sub-run spans, saved without rechunking: every chunk_info records the chunk's
+run id and `subruns`, and the loader gives every chunk back with its run id and `subruns`. -/
+theorem roundtrip_plain_superrun (a0 : Int) (hdr : Header) (rid : String) (s : List Chunk)
+    (hne : s ≠ []) (hs : s.all (annotatedOkB rid) = true) :
+    ∃ md files loaded, saveAll a0 false hdr s = .ok (md, files) ∧ loadAll md files = .ok loaded ∧
+      loaded = s.map (restore hdr rid) ∧
+      loaded.map (fun c => (c.start, c.stop, c.rows, c.runId, c.subruns)) =
+        s.map (fun c => (c.start, c.stop, c.rows, c.runId, c.subruns)) ∧
+      md.chunks.map (fun i => (i.runId, i.subruns)) = s.map (fun c => (some rid, c.subruns)) := by
+  have hst : ∀ c ∈ s, storableB rid c = true := fun c hc => storable_of_annotated (List.all_eq_true.1 hs c hc)
+  refine ⟨metaOf hdr s, filesFrom hdr.pfx 0 s, s.map (restore hdr rid), ?_, loadAll_saved hdr rid s hne hst, rfl, ?_, ?_⟩
+  · rw [saveAll_eq, rechunkAll_off]; rfl
+  · simp [List.map_map, Function.comp_def, restore]
+  · have hrid : ∀ c ∈ s, c.runId = some rid := by
+      intro c hc
+      have := List.all_eq_true.1 hs c hc
+      simp only [annotatedOkB, Bool.and_eq_true, beq_iff_eq] at this
+      exact this.1.2
+    have : ∀ (l : List Chunk) (i : Nat), (∀ c ∈ l, c.runId = some rid) →
+        (infosFrom hdr false i l).map (fun i => (i.runId, i.subruns)) = l.map (fun c => (some rid, c.subruns)) := by
+      intro l
+      induction l with
+      | nil => intro i _; rfl
+      | cons c l ih =>
+        intro i hl
+        obtain ⟨_, _, h3, h4, _⟩ := infoFor_fields hdr false i c
+        simp [infosFrom, h3, h4, hl c (by simp), ih (i + 1) (fun c' hc' => hl c' (by simp [hc']))]
+    simpa [metaOf] using this s 0 hrid
+
+/-! ### open finding C03-zero-length-subrun (witness) -/
+
+def exZero : Chunk :=
+  { dataType := "d", kind := "k", runId := some "_s", start := 0, stop := 5, rows := [⟨1, 2, 0⟩],
+    subruns := some [⟨"b", 0, 0⟩, ⟨"a", 0, 5⟩], superrun := [⟨"_s", 0, 5⟩], target := 1 }
+
+def exHdr : Header := { runId := "_s", dataType := "d", kind := "k", target := 1, pfx := "d-h" }
+
+/-- `roundtrip_plain_storable` needs `restorableRuns`, and that hypothesis cannot be dropped: the
+annotation `{"b": [0,0), "a": [0,5)}` (a zero-length span whose id sorts after its neighbour's) is
+kept as it is by the `subruns` setter of `Chunk.__init__` (sorted by start, not overlapping), the
+chunk is saved, and loading fails with ValueError — json `sort_keys` puts `a` first, the stable
+sort by start keeps it there, and `[0,5)` before `[0,0)` counts as overlapping.  The real code
+produces this chunk when the rechunker concatenates a zero-duration chunk of sub-run `b` with a
+chunk of sub-run `a` (known finding `C03-zero-length-subrun`, reproducer in notes/C03.md). -/
+theorem zero_length_subrun_counterexample :
+    (sortRuns [⟨"b", 0, 0⟩, ⟨"a", 0, 5⟩] = [⟨"b", 0, 0⟩, ⟨"a", 0, 5⟩] ∧ runsOverlap [⟨"b", 0, 0⟩, ⟨"a", 0, 5⟩] = false) ∧
+    ∃ md files, saveAll (-1) false exHdr [exZero] = .ok (md, files) ∧
+      loadAll md files = .error Err.valueError := by
+  constructor
+  · simp [sortRuns, runsOverlap, mergeSort_pair]
+  · refine ⟨metaOf exHdr [exZero], filesFrom exHdr.pfx 0 [exZero], ?_, ?_⟩
+    · rw [saveAll_eq, rechunkAll_off]; rfl
+    · have hov : runsOverlap (sortRuns (jsonRuns [⟨"b", 0, 0⟩, ⟨"a", 0, 5⟩])) = true := by
+        simp [jsonRuns, sortRuns, runsOverlap, mergeSort_pair]
+      have hmk := mkChunk_rejects_overlap "d" "k" (some "_s") 0 5 [⟨1, 2, 0⟩] (jsonRuns [⟨"b", 0, 0⟩, ⟨"a", 0, 5⟩]) none 1 hov
+      simp [loadAll, metaOf, infosFrom, infoFor, chunkInfoOf, exZero, exHdr, filesFrom, loadChunk, readFile,
+        hmk, bind, Except.bind, pure, Except.pure]
 
 /-! ### the rejecting branch the round trip relies on -/
 
@@ -292,5 +474,18 @@ example : rechunkAll (-1) ⟨true, ("r" : String).startsWith "_", none⟩ exS = 
 example : exOut ≠ [] ∧ exOut.all (storableB "r") = true ∧ lawAbidingB exOut = true ∧
     boundaryRuleB exS exOut = true ∧ (boundaries exOut).contains 3500 = true ∧
     (boundaries exS).contains 3500 = false := by decide +kernel
+
+/-- hypotheses of `roundtrip_any_completion_order`: the three files of a four-chunk stream complete in
+the order 2, 0, 1 -/
+example : exStream.all (storableB "r") = true ∧
+    (exStream.filter (fun c => !c.rows.isEmpty)).length = 2 ∧ [1, 0].Perm (List.range 2) := by
+  refine ⟨by decide +kernel, by decide +kernel, ?_⟩
+  exact List.Perm.swap 0 1 []
+/-- hypotheses of `roundtrip_plain_superrun`: sub-run ids in reverse alphabetical order -/
+def exAnnotated : Chunk :=
+  { dataType := "d", kind := "k", runId := some "_s", start := 0, stop := 9, rows := [⟨1, 2, 0⟩, ⟨6, 8, 1⟩],
+    subruns := some [⟨"z", 0, 4⟩, ⟨"a", 4, 9⟩], superrun := [⟨"_s", 0, 9⟩], target := 1 }
+example : [exAnnotated].all (annotatedOkB "_s") = true := by decide +kernel
+example : spansOkB [⟨"z", 0, 4⟩, ⟨"a", 4, 9⟩] = true ∧ spansOkB [⟨"b", 0, 0⟩, ⟨"a", 0, 5⟩] = false := by decide +kernel
 
 end Strax.C03
